@@ -72,7 +72,7 @@ func c05Check(c scriptCase) []rep.Finding { return lockstep(c, nil).fs }
 
 func init() {
 	p := register(&Prop{ID: "C05", Level: "model_checking",
-		Rule: "explicit-state exploration of the real interpreter in lockstep with a reference model of the BSV script rules (certified on all 1438 node vectors of script_tests.json, verdict and error name): after every instruction the AfterStep snapshot (data and alt stack) must equal the reference's, and the final verdict must agree. Spaces: (1) operand grid: every opcode byte 0x00..0xff x every tuple of edge operands (arity 1 and 2 over the full edge set, arity 3 over a 12-value subset; shift counts 0..8n+1 for operand lengths 0..3) x both eras x covering flag sets, and all 512 subsets of the nine non-signature flags for the flag-sensitive opcodes, CLTV/CSV against 7x3 transaction contexts; (2) every byte string of length<=2 (quick) / <=3 (thorough) as locking script x 4 seed unlocking scripts x 2 eras (+MINIMALDATA); (3) breadth-first program exploration with canonical-state deduplication over a 14-symbol control-flow alphabet (depth 7/8) and a 40-symbol mixed alphabet (depth 3/4) from empty and seeded stacks; (4) P2SH / limit templates. Scripts whose execution reaches a signature opcode are left to C06. states = distinct canonical machine states (stacks, condition stack, era+flags) seen in snapshots; transitions = instructions executed in lockstep; traces = executions compared",
+		Rule: "explicit-state exploration of the real interpreter in lockstep with a reference model of the BSV script rules (certified on all 1438 node vectors of script_tests.json, verdict and error name): after every instruction the AfterStep snapshot (data and alt stack) must equal the reference's, and the final verdict must agree. Spaces: (1) operand grid: every opcode byte 0x00..0xff x every tuple of edge operands (arity 1 and 2 over the full edge set, arity 3 over a 12-value subset; shift counts 0..8n+1 for operand lengths 0..3) x both eras x covering flag sets, and all 512 subsets of the nine non-signature flags for the flag-sensitive opcodes, CLTV/CSV against 7x3 transaction contexts; (2) every byte string of length<=2 (quick) / <=3 (thorough) as locking script x 4 seed unlocking scripts x 2 eras (+MINIMALDATA); (3) breadth-first program exploration with canonical-state deduplication over a 15-symbol control-flow alphabet (incl. a non-minimal push) (depth 7/8) and a 40-symbol mixed alphabet (depth 3/4) from empty and seeded stacks; (4) P2SH / limit templates. Scripts whose execution reaches a signature opcode are left to C06. states = distinct canonical machine states (stacks, condition stack, era+flags) seen in snapshots; transitions = instructions executed in lockstep; traces = executions compared",
 	})
 	NewSpace(p, "grid", c05Check)
 	NewSpace(p, "bytes", c05Check)
@@ -240,7 +240,7 @@ func c05Bytes(r *rep.Run, p *Prop, chk func(scriptCase) []rep.Finding, thorough 
 
 // symbol alphabets for the program exploration
 func ctlAlphabet() [][]byte {
-	return [][]byte{{0x63}, {0x64}, {0x67}, {0x68}, {0x65}, {0x6a}, {0x8d}, {0x50}, {0x61}, {0x69}, {0x00}, {0x51}, {0x02, 0x01, 0x00}, {0x66}}
+	return [][]byte{{0x63}, {0x64}, {0x67}, {0x68}, {0x65}, {0x6a}, {0x8d}, {0x50}, {0x61}, {0x69}, {0x00}, {0x51}, {0x02, 0x01, 0x00}, {0x66}, {0x01, 0x05}}
 }
 
 func mixAlphabet() [][]byte {
@@ -305,7 +305,7 @@ func c05BFSJob(r *rep.Run, p *Prop, space string, chk func(scriptCase) []rep.Fin
 		cd, md = 8, 4
 	}
 	jobs := []job{
-		{"control-flow", ctlAlphabet(), cd, [][]byte{nil, {0x51}, {0x00, 0x51}}, []uint32{0, fGenesis, fMinIf, fGenesis | fMinIf | fMinData}},
+		{"control-flow", ctlAlphabet(), cd, [][]byte{nil, {0x51}, {0x00, 0x51}, {0x00}}, []uint32{0, fGenesis, fMinIf, fGenesis | fMinIf | fMinData}},
 		{"mixed", mixAlphabet(), md, seeds2, []uint32{0, fGenesis}},
 	}
 	if mixedOnly {
